@@ -38,3 +38,11 @@ package helpers
 //@ reveal isMeta
 //@ ensures.prefix[C14] result == isMeta(data)
 //@ modifies nothing
+
+// Size strings: float parsing is outside the generator's reach; the value is an uninterpreted
+// function of the input here and is checked by a bounded run of the real function (C17, labelled bounded).
+//@ func ResolveUnionIntOrStringValue
+//@ props C17
+//@ trusted
+//@ ensures result == uninterp("resolve.union", input)
+//@ modifies nothing
